@@ -53,6 +53,17 @@ func NewWorld() (*World, error) {
 	return w, nil
 }
 
+// NewWorldClosed creates the scratch directory without opening an engine on it.
+func NewWorldClosed() (*World, error) {
+	root := vk.TmpRoot()
+	_ = os.MkdirAll(root, 0o755)
+	dir, err := os.MkdirTemp(root, fmt.Sprintf("w%d-", os.Getpid()))
+	if err != nil {
+		return nil, err
+	}
+	return &World{Dir: dir, Evolved: map[int]string{}}, nil
+}
+
 // Open opens the engine on the world's directory.
 func (w *World) Open() error {
 	var opts engine.Options
